@@ -229,7 +229,10 @@ pub fn emit(out: &mut impl Write, id: &str, path: &str, c: &Conf, g: &Graph, cut
 
 /// Sequential reload through the library (C01): returns the lists, or an error string.
 pub fn reload_seq(dir: &Path, le: bool) -> Result<Graph, String> {
-    let base = dir.join("g");
+    reload_seq_base(&dir.join("g"), le)
+}
+
+pub fn reload_seq_base(base: &Path, le: bool) -> Result<Graph, String> {
     catch(std::panic::AssertUnwindSafe(|| -> Result<Graph> {
         let mut out = Vec::new();
         if le {
